@@ -85,6 +85,11 @@ CHECKS = {
    "Within one run of the server to quiescence, between two consecutive services of one connection every other connection that had a complete call waiting the whole time must have been served; across closures and streaming transitions the number of foreign calls served while an eligible call waits must not exceed connections x (transitions + 1).",
    "Trusted: a call is 'waiting' from the delivery of its last byte (deliveries end at frame boundaries); a call queued behind its own connection's open stream counts as eligible only once the server has seen the stream end. Not claimed: that reply streams make progress while some client keeps calls buffered (the biased select polls streams last; see DESIGN.md §4 notes).",
    "§3 C18"),
+ "C19": ("exploration", "vcheck",
+   "generated end-to-end scenarios over real Unix sockets under tokio (current-thread, multi-thread) and smol: socketpairs and bound / inherited-descriptor listeners with 1..8 concurrent connections, message sizes 1 B..1 MiB in both directions at once with generated reader pacing; deterministic cancellation recipe (send polled by hand until Pending with the peer reading a generated number of bytes, dropped, second send); oracle = sent sequence == received sequence byte for byte (position-dependent pattern), distinct connection ids, peer byte stream == whole frames each once",
+   "Each scenario moves generated call and reply sequences through two zlink connections joined by a real socket and compares index, length and every byte; the cancellation scenarios compare the peer's raw byte stream with frame(A) NUL frame(B) NUL. Sizes beyond the kernel socket buffer force partial writes; the schedule itself is not owned, so this is the weakest claim of the set: one kernel schedule per scenario.",
+   "Trusted: the kernel and the two runtimes; each scenario runs under a deadline whose expiry is reported as inconclusive (exit 2). Violations are re-run 5 times on replay.",
+   "§3 C19"),
  "C20": ("exploration", "vcheck",
    "model-based property testing of operation lists (proptest, shrinking) over {set, set through a clone, subscribe, poll subscriber i, clone, drop original} + exhaustive enumeration of every list up to length 7 over {set, subscribe, poll 0, poll 1}, executed against both zlink_tokio::notified and zlink_smol::notified with hand polling; oracle = subscriber model (increasing subsequence of the values set after subscribing, up to date at every Pending, no end while a state exists, end after all states dropped) + one-shot cases",
    "Every generated and enumerated interleaving of writers and (lagging) readers is run on both runtimes: each subscriber must see a strictly increasing subsequence of the values set after it subscribed, marked continues = true, be up to date whenever a poll returns Pending, never see the end while a state or clone exists and see it (with the latest value delivered) once all are dropped; set must never fail or panic; one-shot notification yields exactly one item marked continues = false, then the end (just the end if the notifier was dropped).",
